@@ -150,3 +150,8 @@ Definition computed_admits (src dst : ty) : bool :=
   | TTxn _ | TRef _ => false
   | _ => py_eq dst src
   end.
+
+(* <ComputedValue producing src>.store_into(dst): ReturnedValue (result of an ABIReturnSubroutine call),
+   ArrayElement and TupleElement (through _index_tuple) all test
+   not (output.type_spec() != produced_type_spec)   (type.py, array_base.py, tuple.py) *)
+Definition store_into_admits (src dst : ty) : bool := py_eq dst src.
